@@ -20,6 +20,17 @@ VERIF = os.path.dirname(os.path.dirname(os.path.abspath(__file__)))
 sys.path.insert(0, os.path.join(VERIF, "tools"))
 from mutant_table import MUTANTS  # noqa: E402
 
+# further single-site mutants, one JSON file per property (tools/mutants_extra/<id>.json):
+# [{"id": ..., "file": ..., "old": ..., "new": ..., "needs": ...}, ...]
+import glob  # noqa: E402
+import json  # noqa: E402
+
+MUTANTS = list(MUTANTS)
+for _p in sorted(glob.glob(os.path.join(VERIF, "tools", "mutants_extra", "C*.json"))):
+    _pid = os.path.basename(_p)[:-5]
+    for _m in json.load(open(_p, encoding="utf-8")):
+        MUTANTS.append((_m["id"], [_pid], _m["file"], _m["old"], _m["new"]))
+
 
 def run_one(m, pid, tier, seed):
     mid, props, rel, old, new = m
